@@ -70,6 +70,26 @@ PROPS = {
         "assumptions": COMMON,
         "explanation": "axis normalisation, avar segment maps, region tent scalars and delta-set index maps vs their specified values",
     },
+    "C04": {
+        "prefixes": ["c04"],
+        "assumptions": COMMON,
+        "explanation": "offset-free write-fonts tables serialised with the real write_into (no packing graph) and re-read with read-fonts: field equality, version-dependent presence, to_owned_table round trip, byte-identical re-serialisation",
+    },
+    "C12": {
+        "prefixes": ["c12"],
+        "assumptions": COMMON,
+        "explanation": "scratch-memory carving: the advertised buffer size always suffices, slices have the documented lengths, are aligned and pairwise disjoint",
+    },
+    "C13": {
+        "prefixes": ["c13"],
+        "assumptions": COMMON,
+        "explanation": "the cycle/depth guard (Decycler) that bounds paint-graph recursion: one step from an arbitrary state, cycle detection for periodic id sequences, exact depth limit",
+    },
+    "C14": {
+        "prefixes": ["c14"],
+        "assumptions": COMMON,
+        "explanation": "BitPage (the 512-bit page every integer set is made of) against the mathematical set, one operation from an arbitrary page",
+    },
     "C16": {
         "prefixes": ["c16"],
         "assumptions": COMMON,
@@ -123,7 +143,7 @@ def select(prop, tier, seed, allh):
     out = []
     for h in allh:
         home = h["fn"][:3]
-        if home in spec["prefixes"] or (prop == "C20" and "c20" in h["ann"]):
+        if home in spec["prefixes"] or (prop == "C20" and "c20" in h["ann"]) or (prop.lower() in h["ann"] and prop in ("C01", "C02")):
             t = h["ann"].get("tier", "quick")
             if prop == "C20" and home != "c20" and isinstance(h["ann"].get("c20"), str) and h["ann"]["c20"]:
                 t = h["ann"]["c20"]
